@@ -24,14 +24,18 @@ class PsiTable:
             self.pRRR, self.pRRZ, self.pRZZ, self.pZZZ = env.real("psi_RRR"), env.real("psi_RRZ"), env.real("psi_RZZ"), env.real("psi_ZZZ")
 
 
-def make_equilibrium(env, tab, jets, fpol_sym=True):
-    """Equilibrium object whose psi/f_R/f_Z/Bp_R/Bp_Z/d2psi* are the real spline-branch closures over a table interpolant"""
+def make_equilibrium(env, tab, jets, fpol_sym=True, box=None):
+    """Equilibrium object whose psi/f_R/f_Z/Bp_R/Bp_Z/d2psi* are the real spline-branch closures over a table interpolant.
+    box = (Rlo, Rhi, Zlo, Zhi): grid extent (symbols allowed); numpy.clip then has its real semantics and the arguments handed
+    to the interpolant are recorded in eq._psi_args"""
     eq = eqm.Equilibrium.__new__(eqm.Equilibrium)
     calls = []
+    args_seen = []
 
     class PsiFunc:
         def __call__(self, R_, Z_, dx=0, dy=0, grid=False):
             calls.append((dx, dy))
+            args_seen.append((R_, Z_, dx, dy))
             key = (dx, dy)
             if jets:
                 t3 = (lambda n: getattr(tab, n)) if tab.third else (lambda n: 0)
@@ -45,14 +49,26 @@ def make_equilibrium(env, tab, jets, fpol_sym=True):
                 table = {(0, 0): tab.p, (1, 0): tab.pR, (0, 1): tab.pZ, (2, 0): tab.pRR, (0, 2): tab.pZZ, (1, 1): tab.pRZ}
             return table[key]
 
-    def clip(x, lo, hi):
-        return x  # evaluation point is assumed strictly inside the box (stated bound)
+    if box is None:
+        def clip(x, lo, hi):
+            return x  # evaluation point is assumed strictly inside the box (stated bound)
+        Rgrid, Zgrid = [0.0, 1.0e3], [-1.0e3, 1.0e3]
+    else:
+        def clip(x, lo, hi):
+            # numpy.clip on a scalar
+            if x < lo:
+                return lo
+            if x > hi:
+                return hi
+            return x
+        Rgrid, Zgrid = [box[0], box[1]], [box[2], box[3]]
 
     px = _ProxyWithClip(PROXY, clip)
     with patched((eqm, "interpolate", types.SimpleNamespace(RectBivariateSpline=lambda R_, Z_, psi: PsiFunc())), (eqm, "numpy", px)):
-        eq.magneticFunctionsFromGrid([0.0, 1.0e3], [-1.0e3, 1.0e3], None, "spline")
+        eq.magneticFunctionsFromGrid(Rgrid, Zgrid, None, "spline")
     eq._numpy_for_closures = px
     eq._psi_calls = calls
+    eq._psi_args = args_seen
     return eq
 
 
